@@ -22,7 +22,7 @@ META = {
                    "(Left(k) | [0,N[k]) | [0,N[k+1]) | Right(k+2)^T) = d aligned columns, and function_interpolate gathers core i of every argument "
                    "tensor with column i along its mode axis. Recovery accuracy, maxvol quality and seed independence are NOT decided.",
     "assumptions": ["QR/SVD are modelled by their shape laws for tall arguments (the wide case is X1); the start cores are orthogonalised, so min(N[k]*rank[k+1], rank[k]) = rank[k]", "interface matrices Ps[j] are square of size rank[j]"],
-    "floors": {"RANK-BOUND": 12, "X1-ENRICH": 4, "E3-PARAM": 2, "X2-CALL": 2, "X2-GATHER": 8, "X2-UNRAVEL": 6, "X2-SELECT": 14, "X2-STORE": 6},
+    "floors": {"RANK-BOUND": 12, "X1-ENRICH": 4, "E3-PARAM": 2, "X2-CALL": 2, "X2-GATHER": 4, "X2-UNRAVEL": 6, "X2-SELECT": 14, "X2-STORE": 6},
 }
 ANCHORS = ["interpolate.dmrg_cross", "interpolate.function_interpolate", "interpolate._maxvol"]
 
@@ -38,10 +38,14 @@ def rule_enrich(model: Model):
                 continue
             arg = n.value.args[0]
             transposed = False
-            if isinstance(arg, ast.Call) and isinstance(arg.func, ast.Attribute) and arg.func.attr == "t":
+            if isinstance(arg, ast.Call) and isinstance(arg.func, ast.Attribute) and arg.func.attr == "t" and not arg.args:
                 arg = arg.func.value
                 transposed = True
-            if not (isinstance(arg, ast.Call) and (model.resolve(f.module, arg.func) or "") in ("torch.cat", "torch.concat")):
+            elif isinstance(arg, ast.Attribute) and arg.attr in ("T", "mT"):
+                arg = arg.value
+                transposed = True
+            if not (isinstance(arg, ast.Call) and (model.resolve(f.module, arg.func) or "") in
+                    ("torch.cat", "torch.concat", "torch.concatenate", "torch.hstack", "torch.vstack")):
                 continue
             qname = n.targets[0].elts[0].id if isinstance(n.targets[0].elts[0], ast.Name) else None
             rname = n.targets[0].elts[1].id if isinstance(n.targets[0].elts[1], ast.Name) else None
@@ -77,6 +81,7 @@ def rule_enrich(model: Model):
 
 
 def check(model: Model, tier: str):
+    model.use_inlined("interpolate.dmrg_cross", "interpolate.function_interpolate")   # sweeps moved into private helpers are read in place
     obs = rule_enrich(model)
     eng = Effects(model)
     for fn, p in (("interpolate.dmrg_cross", "x_start"), ("interpolate.function_interpolate", "start_tens"), ("interpolate.function_interpolate", "x")):
